@@ -65,7 +65,7 @@ func propC14(c *Ctx) string {
 func (c *Ctx) goroutineRoots(pkg string) []*FuncInfo {
 	seen := map[*types.Func]bool{}
 	var out []*FuncInfo
-	for _, fi := range c.P.LibFuncs(pkg) {
+	for _, fi := range c.P.LibFuncsAll(pkg) {
 		if fi.Decl.Body == nil {
 			continue
 		}
@@ -284,11 +284,14 @@ func errchkRule(c *Ctx, v *vocab, rule, pkg string, floor int) {
 			}
 		}
 	}
-	for _, fi := range c.P.LibFuncs(pkg) {
+	for _, fi := range c.P.LibFuncsAll(pkg) {
 		if fi.Decl.Body == nil {
 			continue
 		}
-		scan(fi, c.traces(fi))
+		// a NEW helper is seen inlined in its callers; only its function literals are units of their own
+		if !c.P.NewFuncs[fi.Obj] {
+			scan(fi, c.traces(fi))
+		}
 		for _, lit := range funcLits(fi.Decl.Body) {
 			scan(fi, c.P.TraceLit(fi, lit, c.defOpts()))
 		}
@@ -323,7 +326,7 @@ var escapeExempt = map[string]string{
 func escapeRule(c *Ctx, v *vocab, rule string, pkgs []string, floor int) {
 	r := c.Rule(rule, "ESCAPE", "every blocking select / bare channel operation has an escape: a receive from tomb.Dying(), Client.Closing()/Closed(), time.After(...), or is a fill of a channel made in the same function", floor)
 	for _, pkg := range pkgs {
-		for _, fi := range c.P.LibFuncs(pkg) {
+		for _, fi := range c.P.LibFuncsAll(pkg) {
 			if fi.Decl.Body == nil {
 				continue
 			}
@@ -332,7 +335,10 @@ func escapeRule(c *Ctx, v *vocab, rule string, pkgs []string, floor int) {
 				name string
 				in   *Interp
 			}
-			units := []unit{{fi.Name, c.traces(fi)}}
+			var units []unit
+			if !c.P.NewFuncs[fi.Obj] {
+				units = append(units, unit{fi.Name, c.traces(fi)})
+			}
 			for i, lit := range funcLits(fi.Decl.Body) {
 				units = append(units, unit{fmt.Sprintf("%s$%d", fi.Name, i+1), c.P.TraceLit(fi, lit, c.defOpts())})
 			}
@@ -491,7 +497,7 @@ func c14Panic(c *Ctx, v *vocab) {
 	}
 	var list []pf
 	for _, pk := range []string{"packet", "session", "topic", "transport", "broker"} {
-		for _, fi := range c.P.LibFuncs(pk) {
+		for _, fi := range c.P.LibFuncsAll(pk) {
 			if fi.Decl.Body == nil {
 				continue
 			}
